@@ -25,7 +25,7 @@ RULE = ("a case = a seeded batch of 64 find_root problems of one function family
         "settings), ample (max_iters >= 2*log2(W/x_tol)+10), tight (1..30 iterations), rtol (x_tol=0, r_tol>0 as J2 uses "
         "it), endpoint (an end point is an exact root), nobracket, revbracket (bracket given as [hi, lo]), tiny (|f| ~ "
         "1e-170), deriv (jax.grad w.r.t. the 4 family parameters), witness (fixed textbook inputs).  Guesses: inside, "
-        "outside (clipped), at the root, at an end, at the midpoint, at another root outside the bracket.  Either end "
+        "outside (clipped), far outside (1e100..1e307, where f overflows), at the root, at an end, at the midpoint, at another root outside the bracket.  Either end "
         "negative (sign of a).  Executed as jit(vmap), scalar jit and eagerly.  Non-trivial = at least one element was "
         "bracketed and took >= 2 iterations; distinct = canonical hash of (family, class, seed).")
 ASSUMPTIONS = [
@@ -35,7 +35,7 @@ ASSUMPTIONS = [
     "tolerance clause: |f(x)| < r_tol re-evaluated, or a sign change / exact zero of f within K*max(x_tol, 8 eps |x|) of x with "
     "K = 2 for simple roots and K = 8 / 16 for roots of multiplicity 3 / 5 (Newton on (x-c)^m stops with |x-c| < (m-1) x_tol); "
     "the generic contract uses K = 16",
-    "derivative tolerance 1e-9 relative to |d| + |f_theta|_bracket/|f_x| (observed <= 1e-12; both sides evaluate the same "
+    "derivative tolerance 1e-10 relative to |d| + |f_theta|_bracket/|f_x| (observed <= 1e-12; both sides evaluate the same "
     "closed form at the returned x, so only rounding differs)",
     "the hypothesis (sign change / end-point root / no sign change) is decided from the signs of f(lo), f(hi), never from "
     "their product",
@@ -43,14 +43,15 @@ ASSUMPTIONS = [
 ]
 REQUIRED = {
     "all": {
-        "contract_evaluations": 2000, "contract_traced": 2000, "contract_concrete": 20,
-        "mode_jit_vmap": 2000, "mode_jit_scalar": 100, "mode_eager": 20,
-        "converged_checked": 1500, "decided_by_x_tol": 800, "decided_by_r_tol": 200,
-        "endpoint_root_checked": 200, "nobracket_checked": 200, "ample_checked": 300,
-        "exhaustion_classified": 50, "deriv_components_checked": 500,
-        "guess_inside": 500, "guess_outside": 300, "guess_at_root": 100, "guess_other_root": 20,
-        "left_end_negative": 500, "right_end_negative": 500,
-        "ref_newton_steps": 1000, "ref_bisection_steps": 1000,
+        "contract_evaluations": 5000, "contract_traced": 5000, "contract_concrete": 100,
+        "mode_jit_vmap": 4500, "mode_jit_scalar": 400, "mode_eager": 100,
+        "converged_checked": 3000, "decided_by_x_tol": 2000, "decided_by_r_tol": 600,
+        "endpoint_root_checked": 500, "nobracket_checked": 500, "ample_checked": 500,
+        "exhaustion_classified": 200, "deriv_components_checked": 2500, "deriv_nonzero_components": 1000,
+        "guess_inside": 1000, "guess_outside": 600, "guess_at_root": 200, "guess_other_root": 60, "guess_far_outside": 200,
+        "guess_at_end": 200, "guess_midpoint": 100,
+        "left_end_negative": 1500, "right_end_negative": 1500,
+        "ref_newton_steps": 5000, "ref_bisection_steps": 2000,
         "class:witness": 1,
     },
 }
@@ -60,18 +61,19 @@ MAX_VACUOUS_FRACTION = 0.2
 KEY_D10 = "rtsafe-honest-budget-exhaustion-reference-also-fails-at-2x"
 KEY_D10B = "rtsafe-zero-over-zero-at-exact-multiple-root"
 KEY_D10C = "rtsafe-bracket-test-product-underflow"
+KEY_D10D = "rtsafe-step-criterion-accepts-short-newton-step-as-reference-does"
 
 PROBE_K = (1.0, 2.0, 4.0, 8.0, 16.0)
 K_GENERIC = 16.0
 K_BY_MULT = {0: 2.0, 1: 2.0, 3: 8.0, 5: 16.0}
-DERIV_RTOL = 1e-9
+DERIV_RTOL = 1e-10
 
 
 # --------------------------------------------------------------------------------------------------------- cases
 
 def build_cases(tier, seed):
     cases = []
-    nb = {"quick": 1, "thorough": 40}[tier]
+    nb = {"quick": 1, "thorough": 36}[tier]
     for fam in G.FAMILY_NAMES:
         for cls in G.CLASSES:
             if fam == "rate" and cls == "endpoint":
@@ -298,6 +300,9 @@ def _judge(res, case, fam, e, rec, mode, x, conv, its):
         res.count("guess_" + e["guess"])
     for clause in rec["failed"]:
         mech = None
+        if clause == "tolerance_met" and _short_newton_step_signature(fam, e, x, its):
+            mech = KEY_D10D
+            res.count("tolerance_D10d_short_newton_step")
         res.expect(clause, False, dict(wit, fl=rec["fl"], fh=rec["fh"], fx=rec["fx"], K=rec["K"]), mech)
     res.checks += 4
     if rec["hyp"] == "nobracket":
@@ -316,14 +321,19 @@ def _judge(res, case, fam, e, rec, mode, x, conv, its):
         elif rec["decided"] == "x_tol":
             res.count("decided_by_x_tol")
             res.count("signchange_within_K%g" % rec["K"])
-            res.bound("tolerance_met_family_K", rec["K"], K_BY_MULT[mult], dict(wit, K=rec["K"], multiplicity=mult))
+            mech = None
+            if rec["K"] > K_BY_MULT[mult] and _short_newton_step_signature(fam, e, x, its):
+                mech = KEY_D10D
+                res.count("tolerance_D10d_short_newton_step")
+            res.bound("tolerance_met_family_K", rec["K"], K_BY_MULT[mult], dict(wit, K=rec["K"], multiplicity=mult), mech)
             # independent numpy probe of the sign change at the family's K
             w = max(e["x_tol"], 8.0 * EPS * abs(x), 1e-300)
             blo, bhi = min(e["lo"], e["hi"]), max(e["lo"], e["hi"])
             K = K_BY_MULT[mult]
             fa = R.f_np(fam, min(max(x - K * w, blo), bhi), th)
             fb = R.f_np(fam, min(max(x + K * w, blo), bhi), th)
-            res.expect("tolerance_met_numpy_probe", fa * fb <= 0.0 or fa == 0.0 or fb == 0.0, dict(wit, fa=fa, fb=fb, K=K))
+            if rec["K"] <= K:  # (a failure of the in-graph probe at this K is already reported above)
+                res.expect("tolerance_met_numpy_probe", fa * fb <= 0.0 or fa == 0.0 or fb == 0.0, dict(wit, fa=fa, fb=fb, K=K))
         if cls == "ample":
             res.count("ample_checked")
         return
@@ -334,10 +344,13 @@ def _judge(res, case, fam, e, rec, mode, x, conv, its):
         return  # already a violation above
     if abs(rec["fl"]) * abs(rec["fh"]) < 2.2250738585072014e-308:
         # a genuine sign change is present (both ends non-zero, opposite signs) yet NaN, and |f(lo)*f(hi)| is below the
-        # smallest normal double: the implementation's product test fl*fh < 0 underflowed (XLA flushes subnormals)
-        res.count("exhaustion_D10c_underflow")
-        res.expect("bracketed_root_found", False, dict(wit, fl=rec["fl"], fh=rec["fh"]), KEY_D10C)
-        return
+        # smallest normal double: the implementation's product test fl*fh < 0 underflowed (XLA flushes subnormals).  Only
+        # when the (sign-based) reference converges within the budget is the failure attributed to the underflow.
+        r1 = R.rtsafe_reference(fam, th, e["x0"], e["lo"], e["hi"], e["x_tol"], e["r_tol"], e["max_iters"])
+        if r1["status"] == "converged":
+            res.count("exhaustion_D10c_underflow")
+            res.expect("bracketed_root_found", False, dict(wit, fl=rec["fl"], fh=rec["fh"], ref_iters=r1["iters"]), KEY_D10C)
+            return
     if not c1:
         res.count("exhaustion_nonC1_family_not_judged")
         return
@@ -362,10 +375,33 @@ def _judge(res, case, fam, e, rec, mode, x, conv, its):
         res.count("exhaustion_neutral")
 
 
-def _ref_path_counts(res, fam, e):
+def _short_newton_step_signature(fam, e, x, its):
+    """Structural signature of finding D10d: the result was accepted by the step-size criterion after a *Newton* step, and
+    the Numerical Recipes reference stops at the same point, after the same number of iterations, by the same criterion.
+    (A wrong bracket update, a wrong step choice or a wrong tolerance test would make the two disagree.)"""
     r = R.rtsafe_reference(fam, e["th"], e["x0"], e["lo"], e["hi"], e["x_tol"], e["r_tol"], e["max_iters"])
+    w = max(e["x_tol"], 8.0 * EPS * abs(x))
+    return (r["status"] == "converged" and r["exit"] == "x_tol" and r["last_step"] == "newton" and r["iters"] == int(its)
+            and abs(r["x"] - x) <= w)
+
+
+def _ref_path_counts(res, fam, e, its):
+    """Evidence only: which step types the reference trajectory used, and how often the implementation needed exactly as
+    many iterations as the reference (not a verdict: the property does not fix the trajectory)."""
+    r = R.rtsafe_reference(fam, e["th"], e["x0"], e["lo"], e["hi"], e["x_tol"], e["r_tol"], e["max_iters"])
+    if r["status"] in ("converged", "exhausted"):
+        res.count("ref_iterations_equal" if r["iters"] == int(its) else "ref_iterations_differ")
     res.count("ref_newton_steps", r["newtons"])
     res.count("ref_bisection_steps", r["bisections"])
+
+
+def on_exception(case, exc, res):
+    """Every generated argument is admissible for these functions: an exception raised inside the library is a violation."""
+    from vlib.common import raised_in_library, library_frames
+    if raised_in_library(exc):
+        res.violate("library_raised", {"type": type(exc).__name__, "msg": str(exc)[:200], "frames": library_frames(exc)})
+        return True
+    return False
 
 
 def run_case(case):
@@ -412,7 +448,7 @@ def run_case(case):
     for i, e in enumerate(els):
         _judge(res, case, fam, e, _pop_record(e), "jit_vmap", float(x[i]), bool(conv[i]), int(its[i]))
         if i % 4 == 0:
-            _ref_path_counts(res, fam, e)
+            _ref_path_counts(res, fam, e, int(its[i]))
     if cls == "deriv":
         for i, e in enumerate(els):
             _check_derivative(res, fam, e, float(x[i]), g[i], "jit_vmap")
